@@ -162,7 +162,11 @@ def decide_notebook_merge(base, local, remote, args=None):
     if args and args.log_level == "DEBUG":
         nbdime.log.debug("In merge, decisions:")
         config.out = StringIO()
-        pretty_print_merge_decisions(base, decisions, config)
+        try:
+            pretty_print_merge_decisions(base, decisions, config)
+        except Exception:
+            # Debug output must never be able to break the merge itself
+            nbdime.log.exception("Could not pretty-print the merge decisions")
         nbdime.log.debug(config.out.getvalue())
 
     return decisions
